@@ -187,7 +187,8 @@ where
 				args.num_change_outputs as usize,
 				args.selection_strategy_is_use_all,
 				Some(context.fee.map(|f| f.fee()).unwrap_or(0)),
-				parent_key_id.clone(),
+				// select from the account the transaction was initiated from, not the currently active one
+				context.parent_key_id.clone(),
 				false,
 				true,
 				false,
